@@ -302,7 +302,8 @@ func newC07SysSyn(seq []int) (*c07Sys, error) {
 	for i, k := range seq {
 		pins = append(pins, parser.Instruction{Type: al[k].Typ, Addr: model.Addr(0x1000 + 4*i), Bytes: make([]byte, 4), Effects: al[k].Effs, Details: synDetails{al[k].Name}})
 	}
-	s := &c07Sys{syn: append([]int{}, seq...), entry: 0x1000, ins: pins, lens: map[uint64]uint64{}}
+	s := &c07Sys{syn: append([]int{}, seq...), entry: 0x1000, ins: pins, lens: map[uint64]uint64{},
+		segs: []prog.Seg{{Base: 0x1000, Words: make([]uint32, len(seq))}}}
 	for _, in := range pins {
 		s.lens[uint64(in.Addr)] = 4
 	}
